@@ -49,7 +49,7 @@ pub open spec fn lp_enum_ref(m: Map<usize, F64>, h: Seq<(&usize, &F64)>) -> bool
     { unimplemented!() }
 }
 ''', 'assumed callee contract (Quadratic::is_zero)')
-    asm.stubs.append(dict(unit='Zero::is_zero for Quadratic', proved_in='C02'))
+    asm.stubs.append(dict(unit='Zero::is_zero for Quadratic', proved_in='assumed (closure over Option::is_none_or; the same text is assumed in C02); exercised by the bounded stand-in'))
     for u in (qplib.to_quadratic(), qplib.to_linear(), qplib.wrap_function(), qplib.convert_sense(), qplib.convert_dvars()):
         asm.unit(u)
     asm.raw('} // mod units\n')
